@@ -13,7 +13,6 @@ import (
 	topoapi "github.com/onosproject/onos-api/go/onos/topo"
 	controllerutils "github.com/onosproject/onos-config/pkg/controller/utils"
 	proposalstore "github.com/onosproject/onos-config/pkg/store/v2/proposal"
-	pathutils "github.com/onosproject/onos-config/pkg/utils/path"
 	"github.com/onosproject/onos-config/pkg/utils/v2/tree"
 	utilsv2 "github.com/onosproject/onos-config/pkg/utils/v2/values"
 	"github.com/openconfig/gnmi/proto/gnmi_ext"
@@ -263,17 +262,31 @@ func (r *Reconciler) reconcileValidate(ctx context.Context, proposal *configapi.
 		case *configapi.Proposal_Change:
 			rollbackIndex = config.Index
 			rollbackValues = make(map[string]*configapi.PathValue)
-			for path, changeValue := range details.Change.Values {
-				deletedParentPath, deletedParentValue := applyChangeToConfig(changeValues, path, changeValue)
-				if deletedParentValue != nil {
-					rollbackValues[deletedParentPath] = deletedParentValue
-				}
-				if configValue, ok := config.Values[path]; ok {
-					rollbackValues[path] = configValue
-				} else {
-					rollbackValues[path] = &configapi.PathValue{
-						Path:    path,
-						Deleted: true,
+			// The deletes of a request take effect before its updates
+			for _, deletes := range []bool{true, false} {
+				for path, changeValue := range details.Change.Values {
+					if changeValue.Deleted != deletes {
+						continue
+					}
+					if changeValue.Deleted {
+						// Rolling back a delete restores everything that was beneath the deleted path
+						for childPath, childValue := range config.Values {
+							if controllerutils.IsChildPath(childPath, path) {
+								rollbackValues[childPath] = childValue
+								delete(changeValues, childPath)
+							}
+						}
+					}
+					for deletedParentPath, deletedParentValue := range applyChangeToConfig(changeValues, path, changeValue) {
+						rollbackValues[deletedParentPath] = deletedParentValue
+					}
+					if configValue, ok := config.Values[path]; ok {
+						rollbackValues[path] = configValue
+					} else if !changeValue.Deleted {
+						rollbackValues[path] = &configapi.PathValue{
+							Path:    path,
+							Deleted: true,
+						}
 					}
 				}
 			}
@@ -316,8 +329,12 @@ func (r *Reconciler) reconcileValidate(ctx context.Context, proposal *configapi.
 
 			switch targetProposal.Details.(type) {
 			case *configapi.Proposal_Change:
-				for path, rollbackValue := range targetProposal.Status.RollbackValues {
-					changeValues[path] = rollbackValue
+				for _, deletes := range []bool{true, false} {
+					for path, rollbackValue := range targetProposal.Status.RollbackValues {
+						if rollbackValue.Deleted == deletes {
+							applyChangeToConfig(changeValues, path, rollbackValue)
+						}
+					}
 				}
 				rollbackIndex = targetProposal.Status.RollbackIndex
 				rollbackValues = targetProposal.Status.RollbackValues
@@ -474,8 +491,13 @@ func (r *Reconciler) reconcileCommit(ctx context.Context, proposal *configapi.Pr
 				config.Values = make(map[string]*configapi.PathValue)
 			}
 			updatedChangeValues := controllerutils.AddDeleteChildren(proposal.TransactionIndex, changeValues, config.Values)
-			for path, updatedChangeValue := range updatedChangeValues {
-				_, _ = applyChangeToConfig(config.Values, path, updatedChangeValue)
+			// The deletes of a request take effect before its updates
+			for _, deletes := range []bool{true, false} {
+				for path, updatedChangeValue := range updatedChangeValues {
+					if updatedChangeValue.Deleted == deletes {
+						applyChangeToConfig(config.Values, path, updatedChangeValue)
+					}
+				}
 			}
 			config.Status.Committed.Index = proposal.TransactionIndex
 			err = r.configurations.Update(ctx, config)
@@ -511,20 +533,27 @@ func (r *Reconciler) reconcileCommit(ctx context.Context, proposal *configapi.Pr
 	}
 }
 
-func applyChangeToConfig(values map[string]*configapi.PathValue, path string, value *configapi.PathValue) (string, *configapi.PathValue) {
+func applyChangeToConfig(values map[string]*configapi.PathValue, path string, value *configapi.PathValue) map[string]*configapi.PathValue {
 	values[path] = value
-
-	// Walk up the path and make sure that there are no parents marked as deleted in the given map, if so, remove them
-	parent := pathutils.GetParentPath(path)
-	for parent != "" {
-		if v := values[parent]; v != nil && v.Deleted {
-			// Delete the parent marked as deleted and return its path and value
-			delete(values, parent)
-			return parent, v
-		}
-		parent = pathutils.GetParentPath(parent)
+	if value.Deleted {
+		return nil
 	}
-	return "", nil
+
+	// The value makes the path exist again: none of its parents may remain marked as deleted in the given map.
+	// Remove them and return their paths and values
+	var deletedParents map[string]*configapi.PathValue
+	for parentPath, parentValue := range values {
+		if parentValue.Deleted && controllerutils.IsChildPath(path, parentPath) {
+			if deletedParents == nil {
+				deletedParents = make(map[string]*configapi.PathValue)
+			}
+			deletedParents[parentPath] = parentValue
+		}
+	}
+	for parentPath := range deletedParents {
+		delete(values, parentPath)
+	}
+	return deletedParents
 }
 
 func (r *Reconciler) reconcileApply(ctx context.Context, proposal *configapi.Proposal) (controller.Result, error) {
@@ -656,11 +685,17 @@ func (r *Reconciler) reconcileApply(ctx context.Context, proposal *configapi.Pro
 
 		updatedChangeValues := controllerutils.AddDeleteChildren(proposal.TransactionIndex, changeValues, config.Values)
 		// Create a list of PathValue pairs from which to construct a gNMI Set for the Proposal.
+		// The deletes of a request take effect before its updates: only deletes beneath other deletes are redundant
 		pathValues := make([]*configapi.PathValue, 0, len(updatedChangeValues))
+		deletedValues := make([]*configapi.PathValue, 0, len(updatedChangeValues))
 		for _, changeValue := range updatedChangeValues {
-			pathValues = append(pathValues, changeValue)
+			if changeValue.Deleted {
+				deletedValues = append(deletedValues, changeValue)
+			} else {
+				pathValues = append(pathValues, changeValue)
+			}
 		}
-		pathValues = tree.PrunePathValues(pathValues, true)
+		pathValues = append(pathValues, tree.PrunePathValues(deletedValues, true)...)
 
 		log.Infof("Updating %d paths on target '%s'", len(pathValues), config.TargetID)
 
